@@ -4,6 +4,7 @@ Subjects (module route: the helpers as found in the C the working-tree compiler 
 `list`-typed receiver; CPython 3.12 configuration with CYTHON_USE_PYLIST_INTERNALS):
   * __Pyx_PyList_Pop(L)
   * __Pyx__PyList_PopIndex(L, py_ix, ix)
+  * __Pyx_PyList_Append(list, x), __Pyx_ListComp_Append(list, x), __Pyx_PyObject_Append(L, x)   (l.append(x), comprehensions)
 Model (dv/pyobj.py): a list is its size at entry seq_len(L), its elements item(L, i) and `allocated >= size`; the subject's
 writes go to ghost state (current size, current element array), so the MUTATED container is part of the contract.
 From the statement ("the same result and exception as the original call for every argument value ... out-of-range values"):
@@ -26,6 +27,9 @@ SERVES = ("C13", "C36")
 PYX = """# cython: language_level=3
 def pop(list l): return l.pop()
 def popi(list l, Py_ssize_t i): return l.pop(i)
+def app(list l, x): l.append(x)
+def oapp(l, x): l.append(x)
+def comp(it): return [x for x in it]
 """
 
 
@@ -77,6 +81,34 @@ def _popi_post(e):
     return parts[which] if which is not None else And(*parts)
 
 
+def _append_post(arg_list, may_be_other):
+    """append: either slot `size` (inside the allocated slots) gets x, the size grows by one and NOTHING else is written, result 0;
+    or CPython's own PyList_Append on the unchanged list; for a non-list receiver the Python-level call L.append(x)."""
+    from dv.pyfe import intern_id
+
+    def post(e):
+        L = getattr(e, arg_list)
+        n = O.seq_len(L)
+        size_now, store, nstores = _state(e, "listsize"), _state(e, "liststore"), _state(e, "liststores")
+        r = e.result
+        if _state(e, "listitems") is not None:
+            return False                       # no bulk move belongs to an append
+        # ghost cells not written on a path keep their "unwritten" value
+        size_now = size_now if size_now is not None else n
+        store = store if store is not None else z3.K(z3.IntSort(), z3.IntVal(0))
+        nstores = nstores if nstores is not None else z3.IntVal(0)
+        fast = And(r == 0, size_now == n + 1, z3.Select(store, n) == e.x, nstores == 1, n < O.list_allocated(L), e.err == 0)
+        untouched = And(size_now == n, nstores == 0)
+        deleg = And(untouched, O.generic(z3.IntVal(O.OPCODES["list_append"]), L, e.x, z3.IntVal(0), r))
+        if not may_be_other:
+            return Or(fast, deleg)
+        rid = z3.Int("append_method_result")
+        other = And(untouched, z3.Exists([rid], And(rid >= 0, O.generic(z3.IntVal(O.OPCODES["methodcall"]), L, z3.IntVal(intern_id("method:append")), e.x, rid),
+                                                    r == If(rid == 0, -1, 0))))
+        return If(O.is_list(L), Or(fast, deleg), other)
+    return post
+
+
 def _native(model, ob=None):
     import os
     import subprocess
@@ -99,13 +131,37 @@ for n in range(0, 7):
         ra = run((lambda: m.pop(a)) if i is None else (lambda: m.popi(a, i)))
         rb = run((lambda: b.pop()) if i is None else (lambda: b.pop(i)))
         if ra != rb or a != b: bad.append((n, i, ra[0], rb[0], len(a), len(b)))
+import collections
+class Rec:
+    def __init__(self): self.got = []
+    def append(self, x): self.got.append(x); return "ignored"
+class Boom:
+    def append(self, x): raise KeyError(x)
+for n in range(0, 40):
+    for make in (lambda n: [object() for _ in range(n)], lambda n: list(range(n)), lambda n: [None] * n):
+        a = make(n); b = list(a)
+        for k in range(20):
+            x = object()
+            ra = m.app(a, x); b.append(x)
+            if ra is not None or a != b: bad.append(("app", n, k, len(a), len(b)))
+            x = object()
+            ra = m.oapp(a, x); b.append(x)
+            if ra is not None or a != b: bad.append(("oapp", n, k, len(a), len(b)))
+    if m.comp(iter(range(n))) != list(range(n)): bad.append(("comp", n))
+r = Rec(); m.oapp(r, 5); d = collections.deque(); m.oapp(d, 6)
+if r.got != [5] or list(d) != [6]: bad.append(("oapp-other", r.got, list(d)))
+try: m.oapp(Boom(), 7); bad.append(("oapp-raise", "no exception"))
+except KeyError: pass
+try: m.oapp(3, 7); bad.append(("oapp-attr", "no exception"))
+except AttributeError: pass
 print(bad[:4])
 ''' % d
     env = dict(os.environ, ASAN_OPTIONS="detect_leaks=0", LD_PRELOAD=subprocess.run(["clang", "-print-file-name=libclang_rt.asan-x86_64.so"],
                                                                                   capture_output=True, text=True).stdout.strip())
     r = subprocess.run(["/venv/bin/python", "-c", code], capture_output=True, text=True, timeout=300, env=env)
     out = r.stdout.strip()
-    return {"inputs": "lists of length 0..6, pop() and pop(i) for i in [-2n-2, 2n+2]", "actual": out or r.stderr[-400:], "confirmed": out != "[]",
+    return {"inputs": "lists of length 0..6: pop() and pop(i) for i in [-2n-2, 2n+2]; lists of length 0..39 built three ways: 20 appends each "
+                      "through the typed and the untyped route; non-list receivers (recorder, deque, raising append, no append); a comprehension", "actual": out or r.stderr[-400:], "confirmed": out != "[]",
             "how": "catalogue module built from the working tree with ASan; result and mutated list compared with CPython", "obligation": getattr(ob, "name", None)}
 
 
@@ -133,7 +189,38 @@ def units(tier):
     u.replay = _native
     u.concrete_search = lambda ob, regions=(): _native({}, ob)
     us.append(u)
+    app_common = [("0 <= len(list) far below PY_SSIZE_T_MAX when the receiver is a list", lambda e: And(O.seq_len(e.list) >= 0, O.seq_len(e.list) < 2 ** 60)),
+                  ("x is an object", lambda e: e.x >= 1)]
+    for uid, fname, template, filt, other, req in (
+            ("Optimize.PyList_Append", "__Pyx_PyList_Append", "ListAppend", ["__Pyx_PyList_Append", "__Pyx__ListComp_AppendAndDecref"], False,
+             [("kernel: the receiver is an exact list", lambda e: O.is_list(e.list))]),
+            ("Optimize.ListComp_Append", "__Pyx_ListComp_Append", "ListCompAppend", ["__Pyx_ListComp_Append", "__Pyx__ListComp_AppendAndDecref"], False,
+             [("kernel: the receiver is an exact list", lambda e: O.is_list(e.list))]),
+            ("Optimize.PyObject_Append", "__Pyx_PyObject_Append", "append",
+             ["__Pyx_PyObject_Append", "__Pyx_PyList_Append", "__Pyx__ListComp_AppendAndDecref"], True, [])):
+        lname = "L" if other else "list"
+        reqs = [(t, (lambda f, lname: lambda e: f(_ListView(e, lname)))(f, lname)) for t, f in app_common + req]
+        u = CUnit(uid, props, fname, _tu, filt=filt, defines=("NDEBUG",), pyobjs=(lname, "x"), requires=reqs,
+                  ensures=[("x is stored in slot `size` (inside the allocated slots), size + 1, nothing else written, result 0; or CPython's own "
+                            "PyList_Append on the unchanged list" + ("; for a non-list receiver the call L.append(x)" if other else ""),
+                            _append_post(lname, other))],
+                  options={"inline": tuple(f for f in filt if f != fname), "merge": False}, subject={"file": "Cython/Utility/Optimize.c", "template": template})
+        u.exec_cls = O.CExecPyObj
+        u.err_ghost = True
+        u.replay = _native
+        u.concrete_search = lambda ob, regions=(): _native({}, ob)
+        us.append(u)
     return us
+
+
+class _ListView:
+    """the append units name their receiver `list` or `L`: one spelling for the shared preconditions"""
+
+    def __init__(self, e, lname):
+        self._e, self._l = e, lname
+
+    def __getattr__(self, k):
+        return getattr(self._e, self._l if k == "list" else k)
 
 
 REGIONS = {}
